@@ -8,9 +8,95 @@ THEOREMS = ["objectz_paging_facts_expected", "boltz_paging_facts_expected", "obj
             "objectz_eq_bolt", "objectz_order_independent", "pinned_isnil_violates",
             "objectz_eq_bolt_any_filter", "objectz_needs_id", "objectz_nil_iterator_empty", "set_function_on_non_set_rejected",
             "objectz_float_comparator_facts_expected", "boltz_float_comparator_facts_expected",
-            "objectz_time_representation_irrelevant", "objectz_eq_bolt_time_values"]
+            "objectz_time_representation_irrelevant", "objectz_eq_bolt_time_values",
+            "objectz_store_facts_expected", "history_independent", "standAlone_objectz_eq_bolt", "standAlone_objectz_exact",
+            "history_objectz_eq_bolt"]
 TABLE = ["objectz_paging_facts_expected / boltz_paging_facts_expected (Generated/PagingFacts.lean: shape of setPaging, maxResults and the eviction test, regenerated from objectz/object_store.go and boltz/query_scanners.go)",
-         "objectz_float_comparator_facts_expected / boltz_float_comparator_facts_expected (Generated/PagingFacts.lean: branch chain of the float64 sort comparators incl. the NaN branch, regenerated from objectz/object_store_sort.go and boltz/query_sort.go)"]
+         "objectz_float_comparator_facts_expected / boltz_float_comparator_facts_expected (Generated/PagingFacts.lean: branch chain of the float64 sort comparators incl. the NaN branch, regenerated from objectz/object_store_sort.go and boltz/query_sort.go)",
+         "objectz_store_facts_expected (Generated/ObjectzStore.lean: the fields of struct ObjectStore, the package-level variables of objectz, every write to / method call on a store field outside NewObjectStore and Add…Symbol, the shape of QueryEntities / QueryEntitiesC — regenerated from objectz/*.go; the history model carries no state of the store object between calls)"]
+
+
+def _is_hist(case):
+    return case.startswith("H ")
+
+
+def _steps(case):
+    return [st.split("/") for st in case.split(" ")[1:]]
+
+
+def _hist_nontrivial(case, impl):
+    """a history counts when at least two of its calls executed a query and one of them returned >= 2 objects"""
+    if impl.startswith("panic") or impl in ("bad-case", "hang"):
+        return None
+    execs, big = 0, False
+    for sec in impl.split("|"):
+        for part in sec.split(";"):
+            if "=" in part and "#" in part:
+                execs += 1
+                try:
+                    big = big or int(part.split("#")[1]) >= 2
+                except ValueError:
+                    pass
+    return ("H", case) if execs >= 2 and big else None
+
+
+def _hist_describe(case, impl, model, spec):
+    steps = case.split(" ")[1:]
+
+    def secs(line):
+        p = (line or "").split("|")
+        return p if len(p) == len(steps) else line
+    a, m, sp = secs(impl), secs(model), secs(spec)
+    rows = []
+    for i, st in enumerate(steps):
+        e = {"step": st}
+        for name, v in (("impl", a), ("model", m), ("spec", sp)):
+            e[name] = v[i] if isinstance(v, list) else v
+        rows.append(e)
+    return {"case": case, "kind": "history of calls on one ObjectStore object per variant (o full, s sub, n noid) and one bolt store (b)",
+            "steps": rows, "first_differing_step": next((i for i, e in enumerate(rows) if e["impl"] != e["spec"]), None),
+            "impl": impl, "model": model, "spec": spec}
+
+
+def _hist_candidates(case):
+    steps = case.split(" ")[1:]
+    out = []
+
+    def put(i, st):
+        g = list(steps)
+        if st is None:
+            del g[i]
+        else:
+            g[i] = st
+        out.append("H " + " ".join(g))
+    for i in range(len(steps) - 1, 0, -1):
+        put(i, None)
+    for i, st in enumerate(steps):
+        p = st.split("/")
+        if p[0] == "D":
+            if i == 0:
+                for v in flow.row_variants(p[1]):
+                    put(i, "/".join(["D", v, p[2]]))
+            if p[2] != "fwd":
+                put(i, "/".join(["D", p[1], "fwd"]))
+        elif p[0] in ("T", "P"):
+            o = 2 if p[0] == "T" else 3
+            if p[0] == "T" and len(p[1]) > 1:
+                for k in range(len(p[1])):
+                    put(i, "/".join([p[0], p[1][:k] + p[1][k + 1:]] + p[2:]))
+            if p[-1] != "0":
+                put(i, "/".join(p[:-1] + ["0"]))
+            for v in flow.filter_variants(p[o]):
+                put(i, "/".join(p[:o] + [v] + p[o + 1:]))
+            for v in flow.sort_variants(p[o + 1]):
+                put(i, "/".join(p[:o + 1] + [v] + p[o + 2:]))
+            for j in (o + 2, o + 3):
+                for v in flow.num_variants(p[j]):
+                    put(i, "/".join(p[:j] + [v] + p[j + 1:]))
+        elif p[0] == "C" and len(p[2]) > 1:
+            for k in range(len(p[2])):
+                put(i, "/".join([p[0], p[1], p[2][:k] + p[2][k + 1:]]))
+    return out
 
 
 def _f(case):
@@ -21,6 +107,8 @@ def _f(case):
 
 def nontrivial(case, impl):
     """non-trivial: at least 2 objects match and a null test, a sort field, skip or limit is present"""
+    if _is_hist(case):
+        return _hist_nontrivial(case, impl)
     c = _f(case)
     if impl.startswith("panic") or "|" not in impl or "err" in impl.split("|")[1]:
         return None
@@ -37,6 +125,8 @@ def nontrivial(case, impl):
 
 
 def describe(case, impl, model, spec):
+    if _is_hist(case):
+        return _hist_describe(case, impl, model, spec)
     c = _f(case)
 
     def sec(line):
@@ -49,8 +139,31 @@ def describe(case, impl, model, spec):
 
 def histogram(lines):
     h = {"rows": Counter(), "sort": Counter(), "skip": Counter(), "limit": Counter(), "filter": Counter(), "order": Counter(),
-         "object_store": Counter(), "nan_data": Counter(), "time_reps": Counter()}
+         "object_store": Counter(), "nan_data": Counter(), "time_reps": Counter(), "kind": Counter(),
+         "history_steps": Counter(), "history_queries": Counter(), "history_step_kinds": Counter(), "history_spelling": Counter()}
+    names = {"D": "collection changed", "T": "query text", "P": "parse into a kept object", "C": "kept object executed",
+             "S": "SetSkip", "L": "SetLimit"}
     for l in lines:
+        if _is_hist(l):
+            h["kind"]["history"] += 1
+            st = _steps(l)
+            h["history_steps"][str(len(st))] += 1
+            h["history_queries"][str(sum(len(p[1]) if p[0] == "T" else len(p[2]) if p[0] == "C" else 0 for p in st))] += 1
+            for i, p in enumerate(st):
+                if i > 0 or p[0] != "D":
+                    h["history_step_kinds"][names.get(p[0], p[0])] += 1
+                if p[0] in ("T", "P"):
+                    try:
+                        fl = int(p[-1]) & 15
+                    except ValueError:
+                        fl = 0
+                    if fl == 0:
+                        h["history_spelling"]["canonical"] += 1
+                    for bit, nm in ((1, "whitespace varied"), (2, "keyword case varied"), (4, "redundant parentheses"), (8, "numbers re-spelled")):
+                        if fl & bit:
+                            h["history_spelling"][nm] += 1
+            continue
+        h["kind"]["single query"] += 1
         c = _f(l)
         n = len(flow.split_rows(c["rows"]))
         h["rows"]["no bucket" if c["rows"] == "-" else str(n)] += 1
@@ -67,6 +180,8 @@ def histogram(lines):
 
 
 def candidates(case):
+    if _is_hist(case):
+        return _hist_candidates(case)
     f = case.split(" ")
     out = []
 
@@ -113,9 +228,19 @@ RULE = ("200 (quick) / 4000 (thorough) random collections of 0-7 objects over ti
         "collections x 25/30 queries with NaN / +-Inf / -0 under the float64 sort key (all iteration orders); + 40/600 collections x 30 queries over keyword-like alias symbol names (as in C02) with every spelling of the sort "
         "direction; + 60/600 collections of 2-6 objects x 25/30 queries sorted by the datetime symbol where several objects hold the SAME instant as "
         "different time.Time values (UTC, three FixedZone pointers, time.Local, time.Now()-derived with monotonic reading; also the zero time), "
-        "every iteration order and paging boundary. Each case runs boltz QueryIds, "
+        "every iteration order and paging boundary. Each of these cases runs boltz QueryIds, "
         "objectz QueryEntities, and QueryEntitiesC twice on one query object. non-trivial = at least two objects match and a null test, sort field, "
-        "skip or limit is present; distinct = (collection, filter, sort, skip, limit, object store)")
+        "skip or limit is present; distinct = (collection, filter, sort, skip, limit, object store); "
+        "+ 1800/12000 HISTORIES on one set of store objects (fresh per history: an ObjectStore with every symbol, one with id,s,i, one without id, "
+        "one bolt store, all over one collection of 2-5 objects whose string field is drawn from a whitespace / case family: 'a b', 'a  b', 'a b ', ' a b', "
+        "'A b', 'A B', 'a<TAB>b', 'ab', 'a', '', null): 2-6 queries each, sent as text (QueryEntities / QueryIds) to one to three of the stores in any order, or "
+        "parsed once (against either kind of store) into a kept ast.Query that is executed (QueryEntitiesC / QueryIdsC) on the object stores and the bolt store in turn, "
+        "with SetSkip / SetLimit and changes of the whole collection in between; the next query of a history is the previous tokens again in another SPELLING "
+        "(whitespace between tokens incl. tabs / newlines / none around operators, keyword case, redundant parentheses, 7 vs 7.0 vs 7e0, 0.5 vs 5e-1), a SIBLING "
+        "(a string literal changed only in inner / outer whitespace or letter case, contains <-> icontains, the parentheses of a three-atom and/or tree moved), the same "
+        "filter with another sort / skip / limit, or a fresh query; filters: =, !=, <, >= and [not] contains / icontains on the string symbol, comparisons on int / float / id, "
+        "null tests, and/or/not. Every call of a history is judged against model and spec; a history is non-trivial when at least two of its calls executed a query and one "
+        "returned >= 2 objects")
 
 
 def run(ctx, replay_cases=None):
@@ -128,6 +253,8 @@ def run(ctx, replay_cases=None):
         "fewer than 2^63 objects",
         "the executable filter fragment is that of Query/Filter.lean (typed comparisons, = null, != null, and/or/not) over non-set symbols; set symbols are not implemented by objectz (OpenSetCursor panics by design) and are outside the property; set functions on non-set symbols are rejected by both parsers",
         "bolt side: the assumptions of C02 (bbolt key order)",
+        "histories: what a query TEXT denotes is taken from the harness's tokens (the spelling variants are produced by the harness from one token tuple; that ast.Parse reads every spelling as those tokens is part of what the correspondence checks, the parser itself is C10/C12's subject); contains / icontains are modelled on ASCII text (strings.ToUpper = ASCII upper-casing on the generated strings)",
+        "histories: a kept ast.Query is executed on a store only if the store declares the symbols its filter reads (an ObjectCursor asked for an undeclared symbol dereferences nil: outside the property)",
     ]
     return flow.flow(ctx, "c19", MODULE, THEOREMS, MATCHERS, nontrivial, describe, RULE, histogram, candidates,
                      table_obligations=TABLE, replay_cases=replay_cases)
